@@ -140,6 +140,92 @@ def tlc_cases(run, plan, parallel, workers):
 
 
 # ----------------------------------------------------------------------------------------
+# configurations: composite shapes and number packagings of the same data
+# ----------------------------------------------------------------------------------------
+def grid_shapes(K):
+    """shapes of composite objects: a square grid (N, N), a row (1, N), a column (N, 1), a 3-d block"""
+    m = min(int(math.isqrt(K)), 7)
+    out = []
+    if m >= 2:
+        out += [(m, m), (1, m), (m, 1)]
+    if K >= 12:
+        out.append((2, 3, 2))
+    return out
+
+
+PACKS = ("int64", "int32", "nested lists of ints", "Point of ints")
+
+
+def pack(H, a, how):
+    """the integer array a in another packaging (the entries are small integers, exactly representable everywhere)"""
+    if how == "int64":
+        return a.astype(np.int64)
+    if how == "int32":
+        return a.astype(np.int32)
+    if how == "nested lists of ints":
+        return a.astype(np.int64).tolist()
+    if how == "Point of ints":
+        return H.Point(a.astype(np.int64))
+    raise KeyError(how)
+
+
+def config_pass(run, rep, H, label, keys, data, build, query, names, rng, tol=1e-9):
+    """data: tuple of integer-valued float arrays (K, ...) from which build(tuple) makes the library object; query(obj) -> tuple
+    of arrays with leading axis K.  The same cases arranged in grids, and given as integer arrays / lists / Point objects,
+    must report the same numbers as the flat float64 object (whose values are compared with the specification elsewhere)."""
+    K = len(keys)
+    if K < 4:
+        return
+    try:
+        with np.errstate(all="ignore"):
+            ref = [np.asarray(x, float) for x in query(build(tuple(d.copy() for d in data)))]
+    except Exception as ex:
+        rep("raised:%s.config.reference" % label, keys[0], dict(error="%s: %s" % (type(ex).__name__, ex)))
+        return
+
+    def compare(kind, what, got, idx, shape):
+        cnt = len(idx)
+        for nm, g, r in zip(names, got, ref):
+            g = np.asarray(g, float)
+            want_shape = tuple(shape) + r.shape[1:]
+            if g.shape != want_shape:
+                rep("%s.%s.%s_shape" % (label, kind, nm), "%s:%s" % (keys[idx[0]], what), dict(configuration=what, got=g.shape, want=want_shape))
+                return
+            g = g.reshape((cnt,) + r.shape[1:])
+            rr = r[idx]
+            with np.errstate(all="ignore"):
+                bad = ~(np.isclose(g, rr, rtol=tol, atol=tol, equal_nan=True) | (~np.isfinite(g) & ~np.isfinite(rr)))
+            bad = bad.reshape(cnt, -1).any(-1)
+            for i in np.nonzero(bad)[0][:MAXV]:
+                rep("%s.%s.%s" % (label, kind, nm), "%s:%s" % (keys[idx[i]], what),
+                    dict(configuration=what, position=[int(x) for x in np.unravel_index(i, shape)], got=fl(g[i]), flat_float64_object=fl(rr[i])))
+    for shape in grid_shapes(K):
+        cnt = int(np.prod(shape))
+        idx = np.arange(cnt)
+        what = "composite shape %r" % (shape,)
+        try:
+            with np.errstate(all="ignore"):
+                got = query(build(tuple(d[:cnt].reshape(tuple(shape) + d.shape[1:]).copy() for d in data)))
+            compare("shape", what, got, idx, shape)
+        except Exception as ex:
+            rep("raised:%s.shape" % label, "%s:%s" % (keys[0], what), dict(configuration=what, error="%s: %s" % (type(ex).__name__, ex)))
+        run.evaluations += cnt
+    integral = all(np.array_equal(d, np.round(d)) and np.abs(d).max() < 2 ** 24 for d in data)
+    if integral:
+        idx = np.array(sorted(rng.sample(range(K), min(K, 200))))
+        for how in PACKS:
+            what = "data given as %s" % how
+            try:
+                with np.errstate(all="ignore"):
+                    got = query(build(tuple(pack(H, d[idx], how) for d in data)))
+                compare("packaging", what, got, idx, (len(idx),))
+            except Exception as ex:
+                rep("raised:%s.packaging" % label, "%s:%s" % (keys[idx[0]], what), dict(configuration=what, error="%s: %s" % (type(ex).__name__, ex)))
+            run.evaluations += len(idx)
+    run.actions["configurations (%s)" % label] = run.actions.get("configurations (%s)" % label, 0) + 1
+
+
+# ----------------------------------------------------------------------------------------
 # circles of segments and geodesics
 # ----------------------------------------------------------------------------------------
 def arc_points(c, r, th, ts):
@@ -182,10 +268,10 @@ def check_circle(rep, H, label, n, model, keys, out, exp, both_degrees=None):
         rep.mask(bad, "%s.radius" % label, keys, lambda i: dict(model=model, lib=float(r[i]), spec=float(exp["r"][i])))
         # meets the boundary at right angles, on the library's own numbers
         if model == "poincare":
-            bad = ns & ~(np.abs((c ** 2).sum(-1) - 1 - r ** 2) <= 10 * TOL * scale ** 2)
+            bad = ns & ~(np.abs((c ** 2).sum(-1) - 1 - r ** 2) <= 10 * ctol * scale ** 2)
             rep.mask(bad, "%s.orthogonal_to_boundary" % label, keys, lambda i: dict(centre=fl(c[i]), radius=float(r[i])))
         else:
-            bad = ns & ~(np.abs(c[:, -1]) <= ITOL * scale)
+            bad = ns & ~(np.abs(c[:, -1]) <= np.maximum(ITOL, ctol) * scale)
             rep.mask(bad, "%s.centre_on_boundary" % label, keys, lambda i: dict(centre=fl(c[i]), radius=float(r[i])))
         # ... through the end points (all dimensions), on the library's own centre and radius
         for nm in ("q1", "q2"):
@@ -227,7 +313,10 @@ def check_circle(rep, H, label, n, model, keys, out, exp, both_degrees=None):
                 lam = ((kl - a) * d).sum(-1) / (d * d).sum(-1)
                 off = np.abs(kl - a - lam[..., None] * d).max(-1)
                 sc = scale[idx][good][:, None]
-                badseg = ~((off <= CHORD_TOL * sc) & (lam >= -CHORD_TOL * sc) & (lam <= 1 + CHORD_TOL * sc)).all(-1)
+                # the chord parameter of a point known to 1e-8 on a chord of Klein length |d| is known to 1e-8 / |d|
+                lsc = sc * np.maximum(1.0, 1e-3 / np.sqrt((d * d).sum(-1)))
+                ctl = np.maximum(CHORD_TOL, 3 * np.broadcast_to(np.asarray(ctol, float), (K,))[idx][good][:, None])   # accuracy of the circle itself
+                badseg = ~((off <= ctl * sc) & (lam >= -ctl * lsc) & (lam <= 1 + ctl * lsc)).all(-1)
                 gk = [keys[i] for i in idx[good]]
                 rep.mask(badseg, "%s.arc_on_segment" % label, gk, lambda j: dict(model=model, chord_parameter=fl(lam[j]), distance_from_chord=fl(off[j])))
             except Exception as ex:
@@ -250,7 +339,7 @@ def seg_key(e):
     return "n=%d:U=%s:V=%s:a=%s:b=%s" % (e["n"], e["U"], e["V"], e["a"], e["b"])
 
 
-def replay_segments(run, n, cases, rng, fam):
+def replay_segments(run, n, cases, rng, fam, maker=None):
     H = hyp()
     M = H.Model
     rep = Reporter(run, fam)
@@ -269,8 +358,22 @@ def replay_segments(run, n, cases, rng, fam):
     pr = np.array([math.sqrt(q(e["pr2"])) if not e["straight"] else np.nan for e in cases])
     first = np.array([e["pfirst"] for e in cases])
     gfirst = np.array([e["pgfirst"] for e in cases])
+    # the library finds the ideal end points (and everything derived from them) from the two end points: conditioned
+    # like 1 / (Klein length)^2; square-root conditioned where conformal coordinates of the ideal points enter
+    klen = np.sqrt(((k1 - k2) ** 2).sum(-1))
+    ktol = np.maximum(TOL, 10 * np.finfo(float).eps / klen ** 2)
+    stol = np.maximum(ITOL, 3 * np.sqrt(ktol))
+
+    def mk(cls, idx, shape=None):
+        """the library object for the cases idx (index array or single index), optionally arranged in a grid"""
+        if maker is not None:
+            return maker(cls, idx, shape)
+        a_, b_ = P1[idx].copy(), P2[idx].copy()
+        if shape is not None:
+            a_, b_ = a_.reshape(tuple(shape) + (n + 1,)), b_.reshape(tuple(shape) + (n + 1,))
+        return getattr(H, cls)(a_, b_)
     try:
-        seg = H.Segment(P1.copy(), P2.copy())
+        seg = mk("Segment", np.arange(K))
     except Exception as ex:
         rep("raised:Segment", keys[0], dict(error="%s: %s" % (type(ex).__name__, ex)))
         return
@@ -290,18 +393,18 @@ def replay_segments(run, n, cases, rng, fam):
             if ik.shape != (K, 2, n):
                 rep("ideal_endpoints.shape", keys[0], dict(got=ik.shape, want=(K, 2, n)))
             else:
-                rep.mask(unordered(ik, ku, kv, TOL), "ideal_endpoints.klein", keys, lambda i: dict(lib=fl(ik[i]), spec=[fl(ku[i]), fl(kv[i])]))
+                rep.mask(unordered(ik, ku, kv, ktol), "ideal_endpoints.klein", keys, lambda i: dict(lib=fl(ik[i]), spec=[fl(ku[i]), fl(kv[i])]))
                 ek = np.asarray(seg.endpoint_coords(M.KLEIN), float)
                 d = ik[:, 1] - ik[:, 0]
                 for j in (0, 1):
                     w = ek[:, j] - ik[:, 0]
                     off = np.abs(w - ((w * d).sum(-1) / (d * d).sum(-1))[:, None] * d).max(-1)
-                    rep.mask(~(off <= TOL), "ideal_endpoints.collinear_with_endpoints", keys, lambda i: dict(ideal=fl(ik[i]), endpoints=fl(ek[i])))
+                    rep.mask(~(off <= ktol), "ideal_endpoints.collinear_with_endpoints", keys, lambda i: dict(ideal=fl(ik[i]), endpoints=fl(ek[i])))
             ip = np.asarray(seg.ideal_endpoint_coords(M.PROJECTIVE), float)
             res = np.abs(mink(ip, ip)) / (ip ** 2).sum(-1)
-            rep.mask(~(res <= TOL).all(-1), "ideal_endpoints.lightlike", keys, lambda i: dict(lib=fl(ip[i]), relative_norm=fl(res[i])))
+            rep.mask(~(res <= ktol[:, None]).all(-1), "ideal_endpoints.lightlike", keys, lambda i: dict(lib=fl(ip[i]), relative_norm=fl(res[i])))
             ipo = np.asarray(seg.ideal_endpoint_coords(M.POINCARE), float)
-            rep.mask(unordered(ipo, ku, kv, ITOL), "ideal_endpoints.poincare", keys, lambda i: dict(lib=fl(ipo[i]), spec=[fl(ku[i]), fl(kv[i])]))
+            rep.mask(unordered(ipo, ku, kv, stol), "ideal_endpoints.poincare", keys, lambda i: dict(lib=fl(ipo[i]), spec=[fl(ku[i]), fl(kv[i])]))
             if ik.shape == (K, 2, n):
                 dflt = np.asarray(seg.ideal_endpoint_coords(), float)
                 rep.mask(~(np.abs(dflt - ik).max((-1, -2)) <= 1e-12), "ideal_endpoints.default_model_is_klein", keys, lambda i: dict(lib=fl(dflt[i]), klein=fl(ik[i])))
@@ -311,9 +414,9 @@ def replay_segments(run, n, cases, rng, fam):
     # --- Poincare ball
     e1 = np.where((first == 1)[:, None], pp1, pp2)
     e2 = np.where((first == 1)[:, None], pp2, pp1)
-    t1 = np.where(np.where(first == 1, id1, id2), ITOL, TOL)
-    t2 = np.where(np.where(first == 1, id2, id1), ITOL, TOL)
-    exp = dict(c=pc, r=pr, straight=st, e1=e1 if n == 2 else None, e2=e2, tol1=t1, tol2=t2, k1=k1, k2=k2, q1=pp1, q2=pp2)
+    t1 = np.where(np.where(first == 1, id1, id2), stol, ktol)
+    t2 = np.where(np.where(first == 1, id2, id1), stol, ktol)
+    exp = dict(c=pc, r=pr, straight=st, e1=e1 if n == 2 else None, e2=e2, tol1=t1, tol2=t2, k1=k1, k2=k2, q1=pp1, q2=pp2, ctol=ktol)
     try:
         with np.errstate(all="ignore"):
             out = seg.circle_parameters(model=M.POINCARE, degrees=False)
@@ -332,7 +435,7 @@ def replay_segments(run, n, cases, rng, fam):
     # the geodesic of the segment: the whole inside arc between the ideal end points
     ge1 = np.where((gfirst == 1)[:, None], ku, kv)
     ge2 = np.where((gfirst == 1)[:, None], kv, ku)
-    gexp = dict(c=pc, r=pr, straight=st, e1=ge1 if n == 2 else None, e2=ge2, tol1=np.full(K, ITOL), tol2=np.full(K, ITOL), k1=ku, k2=kv, q1=ku, q2=kv)
+    gexp = dict(c=pc, r=pr, straight=st, e1=ge1 if n == 2 else None, e2=ge2, tol1=stol, tol2=stol, k1=ku, k2=kv, q1=ku, q2=kv, ctol=ktol)
     try:
         with np.errstate(all="ignore"):
             geo = seg.geodesic()
@@ -347,7 +450,7 @@ def replay_segments(run, n, cases, rng, fam):
         sub = lambda a: a[both]
         try:
             with np.errstate(all="ignore"):
-                geo = H.Geodesic(P1[both].copy(), P2[both].copy())
+                geo = mk("Geodesic", both)
                 out = geo.circle_parameters(model=M.POINCARE, degrees=False)
                 outd = geo.circle_parameters(model=M.POINCARE, degrees=True)
             check_circle(rep, H, "geodesic.poincare", n, "poincare", [keys[i] for i in both], out,
@@ -371,17 +474,17 @@ def replay_segments(run, n, cases, rng, fam):
         f1 = np.where((hf == 1)[:, None], h1, h2)
         f2 = np.where((hf == 1)[:, None], h2, h1)
         # the library finds the half-space circle from half-space coordinates of the IDEAL end points
-        ht1 = ht2 = np.full(Kh, ITOL)
+        ht1 = ht2 = stol[hs]
         nost = np.zeros(Kh, bool)
         # conformal factor of the half-space chart at the ideal end points (grows towards the point at infinity): the
         # boundary-conditioned error of the library's ideal points is magnified by it
         hscale = np.maximum(1 + (hu ** 2).sum(-1), 1 + (hv ** 2).sum(-1)) / 2
-        hexp = dict(c=hc, r=hr, straight=nost, e1=f1 if n == 2 else None, e2=f2, tol1=ht1, tol2=ht2, k1=k1[hs], k2=k2[hs], ctol=ITOL, q1=h1, q2=h2, scale=hscale)
+        hexp = dict(c=hc, r=hr, straight=nost, e1=f1 if n == 2 else None, e2=f2, tol1=ht1, tol2=ht2, k1=k1[hs], k2=k2[hs], ctol=stol[hs], q1=h1, q2=h2, scale=hscale)
         try:
-            segh = H.Segment(P1[hs].copy(), P2[hs].copy())
+            segh = mk("Segment", hs)
             with np.errstate(all="ignore"):
                 ih = np.asarray(segh.ideal_endpoint_coords(M.HALFSPACE), float)
-                rep.mask(unordered(ih, hu, hv, ITOL * hscale), "ideal_endpoints.halfspace", hk, lambda i: dict(lib=fl(ih[i]), spec=[fl(hu[i]), fl(hv[i])]))
+                rep.mask(unordered(ih, hu, hv, stol[hs] * hscale), "ideal_endpoints.halfspace", hk, lambda i: dict(lib=fl(ih[i]), spec=[fl(hu[i]), fl(hv[i])]))
                 out = segh.circle_parameters(model=M.HALFSPACE, degrees=False)
                 outd = segh.circle_parameters(model=M.HALFSPACE, degrees=True)
             check_circle(rep, H, "segment.halfspace", n, "halfspace", hk, out, hexp, both_degrees=outd)
@@ -395,8 +498,8 @@ def replay_segments(run, n, cases, rng, fam):
                 out = geo.circle_parameters(model=M.HALFSPACE, degrees=False)
                 outd = geo.circle_parameters(model=M.HALFSPACE, degrees=True)
             check_circle(rep, H, "geodesic_of_segment.halfspace", n, "halfspace", hk, out,
-                         dict(c=hc, r=hr, straight=nost, e1=g1 if n == 2 else None, e2=g2, tol1=np.full(Kh, ITOL), tol2=np.full(Kh, ITOL),
-                              k1=ku[hs], k2=kv[hs], ctol=ITOL, q1=hu, q2=hv, scale=hscale), both_degrees=outd)
+                         dict(c=hc, r=hr, straight=nost, e1=g1 if n == 2 else None, e2=g2, tol1=stol[hs], tol2=stol[hs],
+                              k1=ku[hs], k2=kv[hs], ctol=stol[hs], q1=hu, q2=hv, scale=hscale), both_degrees=outd)
         except Exception as ex:
             rep("raised:segment.circle_parameters.halfspace", hk[0], dict(error="%s: %s" % (type(ex).__name__, ex)))
         run.evaluations += Kh
@@ -407,7 +510,7 @@ def replay_segments(run, n, cases, rng, fam):
             flat = seg.circle_parameters(model=M.POINCARE, degrees=False)
             K2 = (K // 3) * 3
             if K2 >= 6:
-                seg2 = H.Segment(P1[:K2].reshape(K2 // 3, 3, n + 1).copy(), P2[:K2].reshape(K2 // 3, 3, n + 1).copy())
+                seg2 = mk("Segment", np.arange(K2), (K2 // 3, 3))
                 o2 = seg2.circle_parameters(model=M.POINCARE, degrees=False)
                 shapes = [np.asarray(x).shape for x in o2]
                 if shapes != [(K2 // 3, 3, n), (K2 // 3, 3), (K2 // 3, 3, 2)]:
@@ -421,7 +524,7 @@ def replay_segments(run, n, cases, rng, fam):
                         rep.mask(bad, "segment.composite_%s" % nm, keys[:K2], lambda i: dict(flat=fl(b[i]), grid=fl(a[i])))
             units = rng.sample(range(K), min(K, 25))
             for i in units:
-                s1 = H.Segment(P1[i].copy(), P2[i].copy())
+                s1 = mk("Segment", i)
                 for model, mm in (("poincare", M.POINCARE), ("halfspace", M.HALFSPACE)):
                     if model == "halfspace" and not cases[i]["hs"]:
                         continue
@@ -439,6 +542,53 @@ def replay_segments(run, n, cases, rng, fam):
                 run.evaluations += 1
     except Exception as ex:
         rep("raised:segment.shapes", keys[0], dict(error="%s: %s" % (type(ex).__name__, ex)))
+    if maker is None:
+        # composite shapes and packagings of the end point data (non-straight cases: NaN / inf patterns are free there)
+        ok = np.nonzero(~st)[0]
+
+        def q_seg(o):
+            with np.errstate(all="ignore"):
+                return tuple(o.circle_parameters(model=M.POINCARE, degrees=False)) + (o.ideal_endpoint_coords(M.KLEIN),) + tuple(o.sphere_parameters(M.POINCARE))
+        config_pass(run, rep, H, "segment", [keys[i] for i in ok], (P1[ok], P2[ok]), lambda d: H.Segment(d[0], d[1]), q_seg,
+                    ("centre", "radius", "thetas", "ideal_endpoints", "sphere_centre", "sphere_radius"), rng)
+        okh = np.array([i for i in ok if cases[i]["hs"]], int)
+        if len(okh):
+            def q_segh(o):
+                with np.errstate(all="ignore"):
+                    return tuple(o.circle_parameters(model=M.HALFSPACE, degrees=False))
+            config_pass(run, rep, H, "segment.halfspace", [keys[i] for i in okh], (P1[okh], P2[okh]), lambda d: H.Segment(d[0], d[1]), q_segh,
+                        ("centre", "radius", "thetas"), rng, tol=1e-7)
+        # geodesics given by arbitrary representatives of their two ideal points: the primitive integer vectors of the
+        # specification (unequal time coordinates), and independently rescaled ones
+        if len(both):
+            raw1 = np.array([cases[i]["U"] if cases[i]["a"][0] != 0 else cases[i]["V"] for i in both], float)
+            raw2 = np.array([cases[i]["V"] if cases[i]["a"][0] != 0 else cases[i]["U"] for i in both], float)
+            sub = lambda a: a[both]
+            gx = dict(c=sub(pc), r=sub(pr), straight=sub(st), e1=sub(e1) if n == 2 else None, e2=sub(e2), tol1=sub(t1), tol2=sub(t2), k1=sub(k1), k2=sub(k2),
+                      q1=sub(pp1), q2=sub(pp2))
+            f1 = np.array([rng.choice(SCALES) for _ in both])
+            f2 = np.array([rng.choice(SCALES) for _ in both])
+            for lab, a_, b_ in (("primitive", raw1, raw2), ("rescaled", raw1 * f1[:, None], raw2 * f2[:, None])):
+                gk = ["%s:%s representatives" % (keys[i], lab) for i in both]
+                try:
+                    with np.errstate(all="ignore"):
+                        geo = H.Geodesic(a_.copy(), b_.copy())
+                        out = geo.circle_parameters(model=M.POINCARE, degrees=False)
+                    check_circle(rep, H, "geodesic.%s_representatives.poincare" % lab, n, "poincare", gk, out, gx)
+                    with np.errstate(all="ignore"):
+                        sub_ = H.Subspace(np.stack([a_, b_], axis=-2))
+                        sc_, sr_ = sub_.sphere_parameters(M.POINCARE)
+                    check_circle(rep, H, "subspace_of_two_ideal_points.%s_representatives.poincare" % lab, n, "poincare", gk, (sc_, sr_, np.zeros((len(both), 2))), dict(gx, e1=None))
+                    bh = np.array([j for j, i in enumerate(both) if cases[i]["hs"]], int)
+                    if len(bh):
+                        hsel = np.array([np.nonzero(hs == both[j])[0][0] for j in bh])
+                        with np.errstate(all="ignore"):
+                            out = H.Geodesic(a_[bh].copy(), b_[bh].copy()).circle_parameters(model=M.HALFSPACE, degrees=False)
+                        check_circle(rep, H, "geodesic.%s_representatives.halfspace" % lab, n, "halfspace", [gk[j] for j in bh], out,
+                                     {k_: (v_[hsel] if isinstance(v_, np.ndarray) else v_) for k_, v_ in hexp.items()})
+                    run.evaluations += len(both)
+                except Exception as ex:
+                    rep("raised:geodesic.%s_representatives" % lab, gk[0], dict(error="%s: %s" % (type(ex).__name__, ex)))
     mid = cases[K // 2]
     run.sample(dict(kind="%s case (n=%d)" % (fam, n), U=mid["U"], V=mid["V"], endpoints=[mid["P1"], mid["P2"]], poincare_centre=mid["pc"],
                     poincare_radius_sq=mid["pr2"], arc_starts_at_endpoint=mid["pfirst"], halfspace_centre=mid["hc"], halfspace_radius_sq=mid["hr2"]))
@@ -773,6 +923,22 @@ def replay_horospheres(run, n, cases, rng, arcs):
         with np.errstate(all="ignore"):
             badd = ~((np.abs(np.cos(np.radians(thd)) - np.cos(th)).max(-1) <= 1e-9) & (np.abs(np.sin(np.radians(thd)) - np.sin(th)).max(-1) <= 1e-9))
         rep.mask(badd, "horoarc.%s.degrees" % model, kk, lambda i: dict(radians=fl(th[i]), degrees=fl(thd[i])))
+    # composite shapes (N, N), (1, N), (N, 1), ... and packagings of the data
+    for model, mm in (("poincare", M.POINCARE), ("halfspace", M.HALFSPACE)):
+        sel = np.arange(K) if model == "poincare" else np.nonzero(np.array([e["hs"] for e in cases]))[0]
+        if len(sel) < 4:
+            continue
+        data = (U[sel], X[sel]) + ((Y[sel],) if arcs else ())
+
+        def q_h(o, mm=mm):
+            with np.errstate(all="ignore"):
+                out = tuple(H.Horosphere.sphere_parameters(o, mm))
+                if arcs:
+                    out += (o.circle_parameters(model=mm, degrees=False)[2],)
+                return out
+        config_pass(run, rep, H, "%s.%s" % (fam, model), [keys[i] for i in sel], data,
+                    (lambda d: H.HorosphereArc(d[0], d[1], d[2])) if arcs else (lambda d: H.Horosphere(d[0], d[1])), q_h,
+                    ("centre", "radius") + (("thetas",) if arcs else ()), rng, tol=1e-9 if model == "poincare" else 1e-7)
     # unit objects
     for i in rng.sample(range(K), min(K, 15)):
         try:
@@ -1011,6 +1177,12 @@ def replay_subspaces(run, n, cases, rng):
         for i, e in enumerate(es):
             j = where.get(i)
             check_subspace(rep, fam, keys[i], n, e, (pc[i], pr[i]), None if j is None else (hc[j], hr[j]), None if (j is None or bs is None) else (bs[0][j], bs[1][j]))
+        nst = np.array([i for i, e in enumerate(es) if not e["straight"]], int)
+        if len(nst) >= 4:
+            def q_sub(o):
+                with np.errstate(all="ignore"):
+                    return tuple(o.sphere_parameters(M.POINCARE))
+            config_pass(run, rep, H, "subspace.poincare", [keys[i] for i in nst], (data[nst],), lambda d: H.Subspace(d[0]), q_sub, ("centre", "radius"), rng)
         for i in rng.sample(range(K), min(K, 10)):
             try:
                 with np.errstate(all="ignore"):
@@ -1069,6 +1241,38 @@ def replay_hyperplanes(run, n, cases, rng):
     run.sample(dict(kind="hyperplane case (n=%d)" % n, normal=mid["W"], ideal_points=mid["pts"], poincare_sphere_of_spec=[mid["pc"], mid["pr2"]]))
 
 
+def replay_moved(run, n, cases, rng):
+    """histories: a Segment / Geodesic is built, an exact isometry is applied to it (iso @ obj), and the IMAGE is queried; it
+    must be described by the exact values of the image segment"""
+    from .. import hyp_common as hc
+    H = hyp()
+    groups = {}
+    for e in cases:
+        groups.setdefault(json.dumps(e["atom"], sort_keys=True), []).append(e)
+    for ak, es in sorted(groups.items()):
+        atom = es[0]["atom"]
+        try:
+            g = hc.lib_atom(atom, n)
+        except Exception as ex:
+            run.violation("moved:n=%d:atom=%s" % (n, ak), "raised:isometry", dict(error="%s: %s" % (type(ex).__name__, ex)))
+            continue
+        o1 = np.array([e["oP1"] for e in es], float)
+        o2 = np.array([e["oP2"] for e in es], float)
+        for e in es:        # keys name the original segment and the isometry
+            e["U_img"], e["V_img"] = e["U"], e["V"]
+
+        def maker(cls, idx, shape=None, o1=o1, o2=o2, g=g):
+            a_, b_ = o1[idx].copy(), o2[idx].copy()
+            if shape is not None:
+                a_, b_ = a_.reshape(tuple(shape) + (n + 1,)), b_.reshape(tuple(shape) + (n + 1,))
+            with np.errstate(all="ignore"):
+                obj = getattr(H, cls)(a_, b_)
+                obj.sphere_parameters(H.Model.POINCARE)          # a query before the transformation
+                return g @ obj
+        replay_segments(run, n, es, rng, "moved[%s]" % ak, maker=maker)
+        run.actions["isometry @ segment (%s)" % atom["k"]] = run.actions.get("isometry @ segment (%s)" % atom["k"], 0) + len(es)
+
+
 # ----------------------------------------------------------------------------------------
 def run(run, replay=None):
     quick = run.tier == "quick"
@@ -1087,12 +1291,12 @@ def run(run, replay=None):
         "for subspaces of dimension >= 2 only containment of the ideal points is required (the property leaves the sphere free otherwise)",
     ]
     if quick:
-        plan = [dict(n=2, kinds=["segment", "near", "horo", "horoarc", "hyperplane"], B=13, coef=2, near=(10, 100, 1000), bx=5, bw=3),
-                dict(n=3, kinds=["segment", "horo", "subspace", "hyperplane"], B=3, coef=1, bx=3, bw=2, thin=8),
+        plan = [dict(n=2, kinds=["segment", "near", "tiny", "moved", "horo", "horoarc", "hyperplane"], B=13, coef=2, near=(10, 100, 1000), bx=5, bw=3, thin=2),
+                dict(n=3, kinds=["segment", "moved", "horo", "subspace", "hyperplane"], B=3, coef=1, bx=3, bw=2, thin=8),
                 dict(n=4, kinds=["segment", "horo", "subspace", "hyperplane"], B=2, coef=1, bx=2, bw=1, thin=40)]
     else:
-        plan = [dict(n=2, kinds=["segment", "near", "horo", "horoarc", "hyperplane"], B=25, coef=3, near=(3, 10, 30, 100, 300, 1000), bx=9, bw=5),
-                dict(n=3, kinds=["segment", "horo", "subspace", "hyperplane"], B=5, coef=2, bx=5, bw=3, bs=5, thin=4),
+        plan = [dict(n=2, kinds=["segment", "near", "tiny", "moved", "horo", "horoarc", "hyperplane"], B=25, coef=3, near=(3, 10, 30, 100, 300, 1000), bx=9, bw=5),
+                dict(n=3, kinds=["segment", "moved", "horo", "subspace", "hyperplane"], B=5, coef=2, bx=5, bw=3, bs=5, thin=4),
                 dict(n=4, kinds=["segment", "horo", "subspace", "hyperplane"], B=3, coef=1, bx=3, bw=2, bs=2, thin=3)]
     cases = tlc_cases(run, plan, parallel=3, workers=3 if quick else 5)
     names = cases["names"]
@@ -1106,6 +1310,10 @@ def run(run, replay=None):
         segment_variants(run, n, fams["segment"], rng, names)
         if "near" in fams:
             replay_segments(run, n, fams["near"], rng, "near_diameter")
+        if "tiny" in fams:
+            replay_segments(run, n, fams["tiny"], rng, "tiny_segment")
+        if "moved" in fams:
+            replay_moved(run, n, fams["moved"], rng)
         replay_horospheres(run, n, fams["horo"], rng, arcs=False)
         horo_variants(run, n, fams["horo"], rng, names, arcs=False)
         if "horoarc" in fams:
